@@ -1,5 +1,6 @@
 /-
   Drv/ImageIO.lean — driver handlers for property C18 (`meta.*`, `shuffle.*`, `nifti.*`).
+  Only `imageioHandlers` is public (the namespace `Deepali.Drv` is shared).
 
   Header tokens are passed / printed as `w:<word>`, `n:<nat>`, `f:<rational>`.
   A header is passed as `nlines {key ntoks tok…}` and printed as `Key|tok tok…;Key|…`.
@@ -11,18 +12,18 @@ import Deepali.Model.Nifti
 namespace Deepali.Drv
 open Deepali Deepali.Proto Deepali.MetaIO
 
-def ioRats (xs : List Rat) : String := " ".intercalate (xs.map fmtRat)
-def ioNats (xs : List Nat) : String := " ".intercalate (xs.map toString)
-def ioOptRats : Option (List Rat) → String
+private def ioRats (xs : List Rat) : String := " ".intercalate (xs.map fmtRat)
+private def ioNats (xs : List Nat) : String := " ".intercalate (xs.map toString)
+private def ioOptRats : Option (List Rat) → String
   | none => "none"
   | some xs => ioRats xs
 
-def ioErr {β} (e : Except IOErr β) : Reader β :=
+private def ioErr {β} (e : Except IOErr β) : Reader β :=
   match e with
   | .ok v => pure v
   | .error m => throw m.toString
 
-def ioTok : Reader (Tok Rat) := do
+private def ioTok : Reader (Tok Rat) := do
   let t ← tok
   if t.startsWith "w:" then pure (.word (t.drop 2).toString)
   else if t.startsWith "n:" then
@@ -35,15 +36,15 @@ def ioTok : Reader (Tok Rat) := do
     | none => throw s!"bad-op:tok:{t}"
   else throw s!"bad-op:tok:{t}"
 
-def fmtTok : Tok Rat → String
+private def fmtTok : Tok Rat → String
   | .word s => s!"w:{s}"
   | .nat n => s!"n:{n}"
   | .num x => s!"f:{fmtRat x}"
 
-def fmtLines (ls : List (Line Rat)) : String :=
+private def fmtLines (ls : List (Line Rat)) : String :=
   ";".intercalate (ls.map (fun l => l.key ++ "|" ++ " ".intercalate (l.val.map fmtTok)))
 
-def ioElemType : Reader ElemType := do
+private def ioElemType : Reader ElemType := do
   let t ← tok
   match t with
   | "int8" => pure .int8 | "uint8" => pure .uint8 | "int16" => pure .int16 | "uint16" => pure .uint16
@@ -51,18 +52,14 @@ def ioElemType : Reader ElemType := do
   | "float32" => pure .float32 | "float64" => pure .float64
   | _ => throw s!"bad-op:dtype:{t}"
 
-def fmtElemType : ElemType → String
+private def fmtElemType : ElemType → String
   | .int8 => "int8" | .uint8 => "uint8" | .int16 => "int16" | .uint16 => "uint16" | .int32 => "int32"
   | .uint32 => "uint32" | .int64 => "int64" | .uint64 => "uint64" | .float32 => "float32"
   | .float64 => "float64"
 
-def ioFix : Reader Fix := do
-  let b ← bool
-  pure (if b then .proposed else .none)
-
 /-- the header `write_meta_image(data, grid, …)` is given, from a grid of the layer-A model:
     size = ceil of the stored size, origin computed from the center as `Grid.origin()` does. -/
-def headerOfGrid {d : Nat} (g : Grid d Rat) (c : Nat) (e : ElemType) (compress : Bool) (csize : Nat) :
+private def headerOfGrid {d : Nat} (g : Grid d Rat) (c : Nat) (e : ElemType) (compress : Bool) (csize : Nat) :
     Header Rat :=
   { dimSize := (List.finRange d).map (fun i => (g.sizeTensor i).ceil.toNat),
     channels := c, elementType := e, compressed := compress,
@@ -72,7 +69,7 @@ def headerOfGrid {d : Nat} (g : Grid d Rat) (c : Nat) (e : ElemType) (compress :
     direction := (List.finRange d).flatMap (fun i => (List.finRange d).map (g.direction i)) }
 
 /-- `meta.write d grid C dtype compress csize` → header lines as deepali writes them -/
-def metaWrite : Reader String := do
+private def metaWrite : Reader String := do
   let d ← nat
   let g ← grid d
   let c ← nat
@@ -82,7 +79,7 @@ def metaWrite : Reader String := do
   let ls ← ioErr (serialise (headerOfGrid g c e compress csize))
   pure (fmtLines ls)
 
-def ioLines : Reader (List (Line Rat)) := do
+private def ioLines : Reader (List (Line Rat)) := do
   let n ← nat
   listOf n (do
     let key ← tok
@@ -90,34 +87,32 @@ def ioLines : Reader (List (Line Rat)) := do
     let toks ← listOf k ioTok
     pure (⟨key, toks⟩ : Line Rat))
 
-def fmtReadMeta (r : ReadMeta Rat) : String :=
+private def fmtReadMeta (r : ReadMeta Rat) : String :=
   s!"size={ioNats r.dimSize};channels={r.channels};etype={fmtElemType r.elementType};" ++
   s!"tensor_dtype={fmtElemType r.elementType.tensorDType};compressed={if r.compressed then 1 else 0};" ++
   s!"csize={match r.compressedSize with | some n => toString n | none => "none"};" ++
   s!"origin={ioOptRats r.origin};spacing={ioOptRats r.spacing};matrix={ioOptRats r.matrix}"
 
-/-- `meta.read fix nlines {key ntoks tok…}` → what the native reader derives, or the error -/
-def metaRead : Reader String := do
-  let fix ← ioFix
+/-- `meta.read nlines {key ntoks tok…}` → what the native reader derives, or the error -/
+private def metaRead : Reader String := do
   let ls ← ioLines
-  let r ← ioErr (parse fix ls)
+  let r ← ioErr (parse ls)
   pure (fmtReadMeta r)
 
-/-- `meta.roundtrip fix d grid C dtype compress csize` → parse (serialise header) -/
-def metaRoundtrip : Reader String := do
-  let fix ← ioFix
+/-- `meta.roundtrip d grid C dtype compress csize` → parse (serialise header) -/
+private def metaRoundtrip : Reader String := do
   let d ← nat
   let g ← grid d
   let c ← nat
   let e ← ioElemType
   let compress ← bool
   let csize ← nat
-  let r ← ioErr (roundtrip fix (headerOfGrid g c e compress csize))
+  let r ← ioErr (roundtrip (headerOfGrid g c e compress csize))
   pure (fmtReadMeta r)
 
 /-- `shuffle.write C n shape(n) idx(n)` → file shape, file index, row-major offset in the file,
     and the way back -/
-def shuffleWrite : Reader String := do
+private def shuffleWrite : Reader String := do
   let c ← nat
   let n ← nat
   let shape ← listOf n nat
@@ -128,7 +123,7 @@ def shuffleWrite : Reader String := do
         s!"back_shape={ioNats (toTensorOrder 1 c fs)};back_idx={ioNats (toTensorOrder 0 c fi)}")
 
 /-- `shuffle.read C n fileshape(n) fileidx(n)` → tensor shape, tensor index, offset in the tensor -/
-def shuffleRead : Reader String := do
+private def shuffleRead : Reader String := do
   let c ← nat
   let n ← nat
   let shape ← listOf n nat
@@ -137,17 +132,16 @@ def shuffleRead : Reader String := do
   let ti := toTensorOrder 0 c idx
   pure s!"shape={ioNats ts};idx={ioNats ti};offset={ravelIndex ts ti}"
 
-def mat4 : Reader (Mat 4 Rat) := mat 4
+private def mat4 : Reader (Mat 4 Rat) := mat 4
 
-/-- `nifti.read fixed dim(8) pixdim(3) affine(16) intent` → grid attributes and tensor shape -/
-def niftiRead : Reader String := do
-  let fixed ← bool
+/-- `nifti.read dim(8) pixdim(3) affine(16) intent` → grid attributes and tensor shape -/
+private def niftiRead : Reader String := do
   let dim ← listOf 8 nat
   let pix ← listOf 3 rat
   let A ← mat4
   let intent ← nat
-  let d := Nifti.gridDim fixed dim intent
-  let shape ← ioErr (Nifti.readShape fixed dim intent)
+  let d := Nifti.gridDim dim intent
+  let shape ← ioErr (Nifti.readShape dim intent)
   if hd : d ≤ 3 then
     let p : Vec d Rat := fun i => pix.getD i.val 0
     let o := Nifti.readOrigin d hd A
@@ -157,22 +151,31 @@ def niftiRead : Reader String := do
           s!"shape={ioNats shape}")
   else throw "err:value"
 
-/-- `nifti.write d grid` → what `write_nifti_image` hands to nibabel, or nibabel's rejection -/
-def niftiWrite : Reader String := do
+/-- `nifti.write d grid n tshape(n)` → the 4×4 affine, array shape, header dim and intent code
+    `write_nifti_image` hands to nibabel for a tensor of shape `tshape = (C, …, X)` -/
+private def niftiWrite : Reader String := do
   let d ← nat
   let g ← grid d
-  let A ← ioErr (Nifti.writeAffine g)
-  pure (fmtMat A)
+  let n ← nat
+  let tshape ← listOf n nat
+  let shape := Nifti.toNiftiOrder 1 (tshape.headD 0) d tshape
+  pure (s!"affine={fmtMat (Nifti.writeAffine g).memo};shape={ioNats shape};" ++
+        s!"dim={ioNats (Nifti.headerDim shape)};intent={Nifti.writeIntent shape}")
 
-/-- `nifti.write_fixed d grid` → the 4×4 affine of the proposed repair -/
-def niftiWriteFixed : Reader String := do
+/-- `nifti.index C d n idx(n)` → nibabel index of tensor index `idx` and the way back through
+    the reader (`r = d`, `k` by the written intent) -/
+private def niftiIndex : Reader String := do
+  let c ← nat
   let d ← nat
-  let g ← grid d
-  pure (fmtMat (Nifti.writeAffineFixed g).memo)
+  let n ← nat
+  let idx ← listOf n nat
+  let ni := Nifti.toNiftiOrder 0 c d idx
+  let intent := Nifti.writeIntent ni
+  pure s!"idx={ioNats ni};back={ioNats (Nifti.fromNiftiOrder 0 d (Nifti.keepFrom intent) d ni)}"
 
 def imageioHandlers : List (String × Reader String) :=
   [("meta.write", metaWrite), ("meta.read", metaRead), ("meta.roundtrip", metaRoundtrip),
    ("shuffle.write", shuffleWrite), ("shuffle.read", shuffleRead),
-   ("nifti.read", niftiRead), ("nifti.write", niftiWrite), ("nifti.write_fixed", niftiWriteFixed)]
+   ("nifti.read", niftiRead), ("nifti.write", niftiWrite), ("nifti.index", niftiIndex)]
 
 end Deepali.Drv
